@@ -14,6 +14,7 @@ import (
 	"slices"
 	"strconv"
 	"sync"
+	"time"
 
 	"github.com/lxzan/gws"
 	"github.com/renbou/grpcbridge/bridgelog"
@@ -376,8 +377,11 @@ func (s *gRPCWebSocketStream) sendTrailer(st *status.Status) {
 	s.finished = true
 	s.sendMu.Unlock()
 
+	// The connection isn't closed here: ReadLoop keeps reading (and ignoring) whatever the client has already sent until
+	// the client answers the close frame, so that the trailer isn't lost to a connection reset. See closeGracefully.
+	_ = s.socket.NetConn().SetDeadline(time.Now().Add(wsCloseTimeout))
 	_ = s.socket.WriteMessage(gws.OpcodeBinary, lpmTrailer(trailerWithStatus(s.trailer, st)))
-	s.socket.WriteClose(1000, []byte{})
+	closeGracefully(s.socket, 1000, nil)
 }
 
 type gwsGRPCWebHandler struct {
